@@ -51,6 +51,28 @@ def adversarial(c, consts, nbeh, keep):
     c.add_harness(res, payload, "Fetcher adversarial (non-atomic flush schedules)")
 
 
+def batcher(c, max_size, max_ops, runs, ops, seed=None):
+    consts = dict(MaxSize=max_size, UseTimer=True, MaxOps=max_ops)
+    r = vlib.run_tlc("Batcher", cfg=dict(constants=consts, invariants=["HandedOK", "ArmedOK", "ArmedCurrentHasBatch"]))
+    c.add_tlc(r, "Batcher exhaustive %s" % json.dumps(consts))
+    payload = dict(property="C20", seed=seed if seed is not None else c.seed * 31 + max_size, config=dict(MaxSize=max_size, UseTimer=True, Runs=runs, Ops=ops), mode="batcher-trace")
+    res = vlib.run_harness("batcher", payload)
+    events = res.pop("samples")
+    ok, at, tr = vlib.validate_trace("BatcherTrace", consts, events, invariants=["HandedOK"])
+    c.add_tlc(tr, "BatcherTrace validation (%d events)" % len(events), must_hold=False)
+    runs_ = vlib.split_runs(events)
+    if ok:
+        c.traces += len(runs_)
+        c.sample(dict(kind="EventBatcher recorded trace (first run)", events=runs_[0][1][:15]))
+    else:
+        bad = [r_ for r_ in runs_ if r_[0] <= at][-1]
+        c.add_violation("EventBatcher trace rejected by BatcherTrace.tla at event %d of the run: %s" %
+                        (at - bad[0] + 1, json.dumps(events[at - 1]) if at <= len(events) else "end"),
+                        dict(payload, recorded_run=bad[1], rejected_index=at - bad[0]))
+    for e in res.get("errors", []):
+        c.errors.append(e)
+
+
 def run(c):
     gen = dict(FETCH_CONSTS, MaxLen=60)
     if c.tier == "quick":
@@ -64,10 +86,17 @@ def run(c):
               for n_ in (6, 8) for ms in (1, 2, 3) for bs in (1, 2, 3)]
         n = 400
     fetcher(c, cl, n, ex)
+    for ms in ((1, 2, 3) if c.tier == "quick" else (1, 2, 3, 5)):
+        batcher(c, ms, 7 if c.tier == "quick" else 9, 60 if c.tier == "quick" else 600, 30)
     adversarial(c, dict(gen, NItems=5), 400 if c.tier == "quick" else 2000, 60 if c.tier == "quick" else 400)
 
 
 def replay(c, path):
     payload = json.load(open(path))
+    if payload.get("mode") == "batcher-trace":
+        # re-record with the same seed and validate again
+        cfg = payload["config"]
+        batcher(c, cfg["MaxSize"], 7, cfg["Runs"], cfg["Ops"], seed=payload["seed"])
+        return
     res = vlib.run_harness("fetcher", payload)
     c.add_harness(res, payload, "replay " + path)
